@@ -52,8 +52,9 @@ TRUSTED = [
     "by the server); not validated against live servers.  default/sqlite text is judged under generic ANSI semantics",
     "SQLAlchemy's type compilation, server-default rendering, string-literal rendering and the schema-type constraint rule "
     "(Boolean/Enum create_constraint, _create_rule per dialect) are parameters of the model: the harness reads them from SQLAlchemy",
-    "table/schema identifiers in the pools need no quoting (quoting is C14's subject); mssql column names come from the quoting classes "
-    "and are un-quoted by the statement parser ([..] with ]] and '..' with '')",
+    "the statement parsers un-quote delimited identifiers per dialect (\"..\" with \"\", `..` with ``, [..] with ]]) and T-SQL string "
+    "literals ('..' with ''); that an identifier is quoted when it has to be is C14's subject, C13 judges which object a statement names; "
+    "names contain no '.' and no '%'",
 ]
 RULE = (
     "exhaustive over dialect(7) x schema/no schema x subset of requested {type_, nullable, server_default, new_column_name, comment, "
@@ -62,15 +63,17 @@ RULE = (
     "with/without type_ x dialect x schema = 4480 calls judged by Spec.Alter.constraintOk; a kinds battery (type classes, '' / "
     "func.now() / DefaultClause defaults, schema '' / quoted_name, postgresql_using '') and a configuration battery (literal_binds, "
     "transactional_ddl, empty/overridden batch separators), each crossed with all 64 requested subsets x 7 dialects; a names battery "
-    "for mssql (column / new names that the preparer brackets or that contain ' or ]: 64 subsets x 2 x schema x 6 names = 1536 calls; the "
-    "strings inside the sp_rename and drop-default-batch literals are un-escaped and must denote exactly the column); "
+    "on every dialect (column / new names of the identifier-quoting classes -- mixed case, reserved word, space, quote character, the "
+    "dialect's closing delimiter -- and table / schema names 'My Table' / 'select' / 'My Schema': 64 subsets x 2 x 6 names x 7 dialects = "
+    "5376 calls; delimited identifiers are un-quoted per dialect, the strings inside the mssql sp_rename / drop-default-batch literals "
+    "are un-escaped and must denote exactly the requested column and table); "
     "per pattern one draw of plain values (quick) plus draws mixing in identity/computed defaults, schema-type (Boolean/Enum CHECK) types, "
     "postgresql_using, empty comments and same-name renames; 2 initial columns per case for the spec (one adversarial: every unstated "
     "attribute differs from what a restating statement would reset it to). A case is non-trivial when at least one attribute is requested; "
     "distinct by (dialect, schema, requested set, stated set, value kinds, exception class, statement kinds)"
 )
 ASSUMPTIONS = [
-    "table/schema names are plain identifiers (mssql column names: quoting classes); comments contain no quote characters",
+    "names contain no '.' and no '%'; comments contain no quote characters",
     "C13.exact_partial: server defaults are plain values or None; identity/computed defaults are covered by separate theorems and by the known finding C13-PG-IDENTITY-ASSUMED",
 ]
 
@@ -371,22 +374,28 @@ def kinds_battery(rng):
 
 
 def names_battery(rng):
-    """MSSQL with column / new column names of the identifier-quoting classes (the names are embedded in bracketed
-    identifiers AND in T-SQL string literals: sp_rename, the drop-default batch): every requested subset x
-    (nothing | everything stated) x schema x column name"""
-    for requested in subsets(REQ_ATTRS):
-        for stated in ((), tuple(EX_ATTRS)):
-            for schema in (False, True):
-                for col in ai.QUOTED_NAMES:
-                    req = draw_values(rng, requested, stated, schema, False)
+    """every dialect with column / new column names of the identifier-quoting classes (mixed case, reserved word, space,
+    quote character, the dialect's closing delimiter) and table / schema names from the quoting classes; on mssql the
+    names are also embedded in T-SQL string literals (sp_rename, the drop-default batch): every requested subset x
+    (nothing | everything stated) x column name, table and schema rotating"""
+    k = 0
+    for dialect in ai.DIALECTS:
+        names = ai.quoted_names(dialect)
+        for requested in subsets(REQ_ATTRS):
+            for stated in ((), tuple(EX_ATTRS)):
+                for col in names:
+                    k += 1
+                    req = draw_values(rng, requested, stated, False, False)
                     req["column"] = col
+                    req["table"] = ai.QUOTED_TABLES[k % 3]
+                    req["schema"] = ai.QUOTED_SCHEMAS[(k // 3) % 3]
                     if req["new_name"] is not None:
-                        req["new_name"] = rng.choice(ai.QUOTED_NAMES + ["c2"])
+                        req["new_name"] = rng.choice(names + ["c2"])
                     if "ex_type" in stated and rng.random() < 0.3:
                         req["ex_type"] = rng.choice(ai.TYPE_KEYS_CK)
                     if req["type"] is not None and rng.random() < 0.3:
                         req["type"] = rng.choice(ai.TYPE_KEYS_CK)
-                    yield "mssql", req
+                    yield dialect, req
 
 
 def config_battery(rng):
